@@ -365,11 +365,11 @@ def make_case(rng, malformed=False, tries=30):
         fresh = Fresh()
         body: List[Any] = []
         rejected = 0
-        want = rng.choice([0, 0, 1, 1, 2, 2, 3])
+        want = rng.choice([0, 1, 1, 2, 2, 3, 3])
         resolve = rng.random() < (0.5 if malformed else 0.9)
         n_free = want - (1 if (resolve and clashes(cols)) else 0)
         attempts = 0
-        while len(body) < max(n_free, 0) and attempts < 8:
+        while len(body) < max(n_free, 0) and attempts < 14:
             attempts += 1
             p = propose_clause(rng, cols, hist, fresh)
             if p is None:
